@@ -249,6 +249,8 @@ async def one_call(C: Ctx, case: dict[str, Any]) -> None:
         "wrap_async": wrap_async, "wrap_async-of-async": wrap_async, "traced": traced, "traced-async": traced,
     }[deco]
     hand: BaseException | None = Hand("handed") if outcome == "raise" else (HandBase("handed-base") if outcome == "raise-base" else None)
+    if hand is not None and case.get("form", 0) % 2 == 1:
+        hand.__cause__ = KeyError("the underlying failure")  # `raise DomainError(...) from low_level`
     if outcome == "raise-timeout":
         # what socket / urllib timeouts raise: the builtin TimeoutError (an OSError: errno, message), with a cause of its own
         hand = TimeoutError(110, "Connection timed out")
@@ -352,10 +354,26 @@ async def one_call(C: Ctx, case: dict[str, Any]) -> None:
 
             hb = asyncio.get_running_loop().create_task(heartbeat())
         n0 = len(C.capture.records)
+        chain0 = (hand.__cause__, hand.__suppress_context__) if hand is not None else None  # what the function attached to its exception
         try:
-            res = wrapped(ctl, *args, **kwargs)
-            if deco != "traced":  # every other variant produces an async callable: await exactly once (traced of a sync function stays sync)
+            if case.get("prepared") and deco != "traced":
+                # the call expression is evaluated somewhere else (a list of calls built up front) - under another state and another
+                # value of the context variable - and only awaited here: what runs the call is this task, here
+                R.count("calls_prepared_elsewhere_and_awaited_later")
+                tok = CV.set("elsewhere")
+                try:
+                    if depth >= 1:
+                        with ctx.updated(family.make("R1", 990), family.make("D1", 991)):
+                            res = wrapped(ctl, *args, **kwargs)
+                    else:
+                        res = wrapped(ctl, *args, **kwargs)
+                finally:
+                    CV.reset(tok)
                 res = await res
+            else:
+                res = wrapped(ctl, *args, **kwargs)
+                if deco != "traced":  # every other variant produces an async callable: await exactly once (traced of a sync function stays sync)
+                    res = await res
             got: tuple[str, Any] = ("value", res)
         except BaseException as exc:  # noqa: BLE001
             got = ("raise", exc)
@@ -379,6 +397,12 @@ async def one_call(C: Ctx, case: dict[str, Any]) -> None:
             ok = got[0] == "value" and same_struct(got[1], ref[1])
         else:
             ok = got[0] == "raise" and (got[1] is ref[1] or (ref[1] is not hand and type(got[1]) is type(ref[1]) and str(got[1]) == str(ref[1])))
+            if ok and got[1] is hand and chain0 is not None:
+                # the very exception object came through: its explicit cause and its suppress-context flag are part of it
+                chain1 = (hand.__cause__, hand.__suppress_context__)
+                if chain1[0] is not chain0[0] or chain1[1] != chain0[1]:
+                    ok = False
+                    R.count("exception_chain_changed")
         R.monitor("transparent", ok, where={**where, "kind": "result-differs" if ref[0] == "value" else "exception-differs", "observed": type(got[1]).__name__ if got[0] == "raise" else "value"},
                   detail=f"{deco} {fname} form {args!r} {kwargs!r} depth {depth}: plain call -> {ref!r}, decorated -> {got!r}", case=case)
         inner = ctl.get("probe")
@@ -638,6 +662,8 @@ def cases(tier: str, rng: random.Random):  # noqa: ANN201
                 if outcome == "raise-base" and (form_i + depth) % 2:
                     continue
                 yield {"deco": deco, "fn": fname, "form": form_i, "outcome": outcome, "depth": depth, "block": (form_i + depth) % 3 == 0, "leak": (form_i + depth) % 2 == 0}
+                if outcome in ("value", "raise") and form_i <= 1 and deco != "traced":
+                    yield {"deco": deco, "fn": fname, "form": form_i, "outcome": outcome, "depth": depth, "block": False, "leak": depth % 2 == 0, "prepared": True}
     for _ in range({"quick": 600, "thorough": 20000}[tier]):
         fname = rng.choice([*FUNCS, "method", "method"])
         deco = rng.choice(DECOS[:4] if fname == "method" and rng.random() < 0.8 else DECOS)
@@ -653,6 +679,7 @@ def run(R: Recorder, tier: str, seed: int, shard: int, nshards: int) -> None:
     if shard == 0:
         mimic_checks(R)
         argnames.check(R, "transparent", argname_wrappers())
+        argnames.check_injecting(R, "transparent", argname_wrappers())
         stacking.check_traced(R, "traced-scope")
     rng = random.Random(f"C18/{seed}")
     capture = LogCapture()
@@ -691,6 +718,9 @@ def replay(R: Recorder, case: dict[str, Any]) -> None:
 
     if "mimic" in case:
         mimic_checks(R)
+        return
+    if "injecting" in case:
+        argnames.check_injecting(R, "transparent", argname_wrappers())
         return
     if "argnames" in case:
         argnames.check(R, "transparent", argname_wrappers(), only=case["argnames"])
